@@ -213,6 +213,7 @@ class World:
             else:
                 r = self._find_method('::'.join(quals + [ty]), None, meth, from_crate, None)
             if r is not None: return r
+            if segs[0] in ('std', 'core', 'alloc') or any(x.startswith('<') for x in segs): return None      # never fall back for library paths
             for k in range(1, len(segs)):           # a longer path than the trimmed one MIR printed for the definition
                 hits = self.free.get('::'.join(segs[k:]), [])
                 if hits: return self._pick(hits, from_crate, g)
@@ -629,7 +630,10 @@ class Exec:
         if k == 'str': return Str(c[1])
         if k == 'bytes': return Opaque('bytes', bs=list(c[1]))
         if k == 'unit': return UNIT
-        if k == 'float': return Opaque('float', text=c[1])
+        if k == 'float':
+            t = c[1]; sort = z3.Float32() if t.endswith('f32') else z3.Float64(); body = t[:-3]
+            if body in ('inf', '-inf', 'NaN'): return {'inf': z3.fpPlusInfinity, '-inf': z3.fpMinusInfinity, 'NaN': z3.fpNaN}[body](sort)
+            return z3.FPVal(float(body), sort)
         if k == 'zst':
             t = c[1]
             if t.startswith('{closure@'): return ClosureVal(t[9:t.index('}')], [])
@@ -645,6 +649,11 @@ class Exec:
             if m: return FnItem(m.group(1))
         ref = W.const_ref(text, body.crate)
         if ref is not None: return s.eval_const(ref)
+        m = re.fullmatch(r'(?:core::|std::)?(f32|f64)::(?:<impl f(?:32|64)>::)?(MAX|MIN|INFINITY|NEG_INFINITY|NAN)', g)
+        if m:
+            sort = z3.Float32() if m.group(1) == 'f32' else z3.Float64()
+            mx = 3.4028234663852886e38 if m.group(1) == 'f32' else 1.7976931348623157e308
+            return {'MAX': z3.FPVal(mx, sort), 'MIN': z3.FPVal(-mx, sort), 'INFINITY': z3.fpPlusInfinity(sort), 'NEG_INFINITY': z3.fpMinusInfinity(sort), 'NAN': z3.fpNaN(sort)}[m.group(2)]
         m = re.fullmatch(r'core::num::<impl (\w+)>::(MAX|MIN)', g)
         if m: return INT_RANGES[m.group(1)][1 if m.group(2) == 'MAX' else 0]
         if re.fullmatch(r'(std|core)::(u8|u16|u32|u64|usize|i8|i16|i32|i64|isize|char)::(MAX|MIN)', g):
@@ -723,6 +732,7 @@ class Exec:
                 raise Unsupported('bitwise Not on integer')
             if rv[1] == 'Neg':
                 if isinstance(v, Opaque): return Opaque('float', text='neg')
+                if is_sym(v) and z3.is_fp(v): return z3.fpNeg(v)
                 return -v
             if rv[1] == 'PtrMetadata':
                 v = s.deref(v); return s.length(v)
@@ -735,6 +745,10 @@ class Exec:
                 if isinstance(v, (int,)) and rv[2].strip() in ('char',): return v
                 return v
             if kind.startswith('PointerCoercion') or kind in ('PtrToPtr', 'Subtype'): return v
+            if kind == 'FloatToFloat':
+                if isinstance(v, Opaque): return v
+                if not (is_sym(v) and z3.is_fp(v)): raise Unsupported('FloatToFloat cast of %r' % (v,))
+                return z3.fpToFP(z3.RNE(), v, z3.Float32() if rv[2].strip() == 'f32' else z3.Float64())
             raise Unsupported('cast ' + kind)
         if k == 'tuple': return Agg('tuple', 0, [s.operand(frame, x, body) for x in rv[1]])
         if k == 'array': return Agg('array', 0, [s.operand(frame, x, body) for x in rv[1]])
@@ -801,6 +815,13 @@ class Exec:
     def binop(s, op, a, b, rv, body, dest_ty):
         if isinstance(a, (Agg, LazyEnum)) or isinstance(b, (Agg, LazyEnum)):
             a, b = s.disc(a), s.disc(b)
+        if (is_sym(a) and z3.is_fp(a)) or (is_sym(b) and z3.is_fp(b)):
+            # IEEE-754 semantics through z3's floating-point theory
+            if op in ('Eq', 'Ne', 'Lt', 'Le', 'Gt', 'Ge'):
+                r_ = {'Eq': z3.fpEQ, 'Ne': z3.fpNEQ, 'Lt': z3.fpLT, 'Le': z3.fpLEQ, 'Gt': z3.fpGT, 'Ge': z3.fpGEQ}[op](a, b); return r_
+            if op in ('Add', 'Sub', 'Mul', 'Div'):
+                return {'Add': z3.fpAdd, 'Sub': z3.fpSub, 'Mul': z3.fpMul, 'Div': z3.fpDiv}[op](z3.RNE(), a, b)
+            raise Unsupported('float binop ' + op)
         if isinstance(a, Opaque) or isinstance(b, Opaque):
             if getattr(a, 'what', '') == 'float' or getattr(b, 'what', '') == 'float': return Opaque('float', text=op)
             raise Unsupported('binop on opaque %r %r' % (a, b))
